@@ -10,11 +10,22 @@ coq/Gen/ConstsC05.v (fail-closed).
     9-slot stride of c_upstream;
   * per Cython wrapper of the three .pyx files, the shape relations it asserts
     (`assert a == b`, both sides normalised, unordered) -- the models' preconditions
-    cite them; a relation that disappears breaks the `pyx_contract` obligations.
-Only values are extracted; no other text of the source is compared."""
+    cite them; a relation that disappears breaks the `pyx_contract` obligations;
+  * per Python call site of a compiled wrapper (`c_hydrodiy_<pkg>.<wrapper>(...)` in the
+    data, stat and gis packages), the buffers the Python side allocates for the kernel
+    (np.zeros / ones / empty / full / *_like, `k * array`, `.clone()`), as the normalised
+    allocation expression followed by the definitions of every local name it depends on
+    (`py_alloc_contracts`).  The kernels' theorems assume buffer sizes (`Zlen idxcells =
+    nrows * ncols` for c_intersect ...) that only these allocations establish wherever the
+    Cython wrapper asserts no relation; Props/C05.v states the expected contract of every
+    call site, so an edit of an allocation (or a new / removed call site) breaks the
+    `py_alloc` obligations until the theorem's hypothesis is re-established against it.
+Only values / expressions are extracted; no other text of the source is compared."""
 import ast
+import copy
 import re
 from fractions import Fraction
+from pathlib import Path
 
 from harness.extract_consts import BrokenTie, _read, c_define
 
@@ -113,6 +124,186 @@ def coord2cell_checks_columns(repo):
     raise BrokenTie(f"{rel}: Grid.coord2cell not found")
 
 
+# ----------------------------------------------------------------------------
+# buffers allocated by the Python call sites of the compiled wrappers
+
+PY_PKGS = ("data", "stat", "gis")
+_ALLOC_FUNCS = {"zeros", "ones", "empty", "full", "zeros_like", "ones_like", "empty_like", "full_like"}
+_NOT_LOCAL = {"np", "pd", "self", "math"}
+
+
+def _strip_dtype(node):
+    """Drop what does not concern sizes: dtype arguments of the allocators and `.astype(...)`
+    conversions (a wrong dtype is refused by the wrapper's buffer type check)."""
+    class T(ast.NodeTransformer):
+        def visit_Call(self, n):
+            self.generic_visit(n)
+            if isinstance(n.func, ast.Attribute) and n.func.attr == "astype":
+                return n.func.value
+            n.keywords = [k for k in n.keywords if k.arg != "dtype"]
+            if isinstance(n.func, ast.Attribute) and n.func.attr in ("zeros", "ones", "empty") \
+                    and isinstance(n.func.value, ast.Name) and n.func.value.id == "np" and len(n.args) == 2:
+                n.args = n.args[:1]
+            return n
+    return T().visit(copy.deepcopy(node))
+
+
+def _norm(node):
+    return re.sub(r"\s+", "", ast.unparse(_strip_dtype(node)))
+
+
+def _is_number(x):
+    if isinstance(x, ast.UnaryOp) and isinstance(x.op, (ast.USub, ast.UAdd)):
+        x = x.operand
+    return (isinstance(x, ast.Constant) and isinstance(x.value, (int, float)) and not isinstance(x.value, bool)) \
+        or (isinstance(x, ast.Attribute) and isinstance(x.value, ast.Name) and x.value.id == "np"
+            and x.attr in ("nan", "inf"))
+
+
+def _is_alloc(node):
+    """Does the expression create the array: an allocator call, `.clone()` of a grid, or
+    `<number> * <array name>` (a fresh array of the size of the named one)?"""
+    for n in ast.walk(node):
+        if isinstance(n, ast.Call) and isinstance(n.func, ast.Attribute) \
+                and (n.func.attr in _ALLOC_FUNCS or n.func.attr == "clone"):
+            return True
+    n = node
+    if isinstance(n, ast.BinOp) and isinstance(n.op, ast.Mult):
+        for a, b in ((n.left, n.right), (n.right, n.left)):
+            if _is_number(a) and isinstance(b, ast.Name):
+                return True
+    return False
+
+
+def _functions(tree):
+    out = []
+
+    def collect(body, prefix):
+        for n in body:
+            if isinstance(n, (ast.FunctionDef, ast.AsyncFunctionDef)):
+                out.append((prefix + n.name, n))
+                collect(n.body, prefix + n.name + ".")
+            elif isinstance(n, ast.ClassDef):
+                collect(n.body, prefix + n.name + ".")
+    collect(tree.body, "")
+    return out
+
+
+def py_alloc_contracts(repo):
+    """[(pkg, 'Class.function', wrapper, [(argument text, contract), ...])] in source order, one
+    entry per call of a compiled wrapper; only the arguments the function allocates itself are
+    listed.  contract = 'name:=definition ; ...' (every assignment, before the call, of every
+    local name the argument depends on, transitively; dtype arguments / conversions left out)."""
+    out = []
+    for pkg in PY_PKGS:
+        d = Path(repo) / "src" / "hydrodiy" / pkg
+        if not d.is_dir():
+            raise BrokenTie(f"src/hydrodiy/{pkg}: directory missing")
+        for f in sorted(d.glob("*.py")):
+            txt = f.read_text()
+            if "c_hydrodiy_" not in txt:
+                continue
+            try:
+                tree = ast.parse(txt)
+            except SyntaxError as e:
+                raise BrokenTie(f"{f}: {e}")
+            funcs = _functions(tree)
+            inner = {id(sub) for _, fn in funcs for sub in ast.walk(fn)
+                     if sub is not fn and isinstance(sub, (ast.FunctionDef, ast.AsyncFunctionDef))}
+            for qn, fn in funcs:
+                assigns = []          # (line, name, value node, text of a tuple target)
+                for n in ast.walk(fn):
+                    if isinstance(n, ast.Assign):
+                        for t in n.targets:
+                            if isinstance(t, ast.Name):
+                                assigns.append((n.lineno, t.id, n.value, None))
+                            elif isinstance(t, (ast.Tuple, ast.List)):
+                                for e in t.elts:
+                                    if isinstance(e, ast.Name):
+                                        assigns.append((n.lineno, e.id, n.value, _norm(t)))
+                            elif isinstance(t, ast.Subscript) and isinstance(t.value, ast.Name):
+                                pass          # writes into an array do not change its size
+                    elif isinstance(n, ast.AugAssign) and isinstance(n.target, ast.Name):
+                        assigns.append((n.lineno, n.target.id, n, None))
+                    elif isinstance(n, (ast.For, ast.comprehension)) :
+                        for e in ast.walk(n.target):
+                            if isinstance(e, ast.Name):
+                                assigns.append((getattr(n, "lineno", getattr(n.iter, "lineno", 0)), e.id, n.iter, "for:" + _norm(n.target)))
+                assigns.sort(key=lambda a: a[0])
+                alias = {}
+                for _, name, val, _t in assigns:
+                    if isinstance(val, ast.Attribute) and isinstance(val.value, ast.Name) \
+                            and val.value.id.startswith("c_hydrodiy_"):
+                        alias[name] = val.attr
+
+                def where_of(node, before, seen, depth=0):
+                    """definitions (before the call) of every local name `node` depends on"""
+                    where = []
+                    for nm in sorted({x.id for x in ast.walk(node) if isinstance(x, ast.Name)}):
+                        if nm in _NOT_LOCAL or nm in seen:
+                            continue
+                        ds = [(v, tt) for ln, name, v, tt in assigns if name == nm and ln < before]
+                        if not ds:
+                            continue
+                        seen.add(nm)
+                        for v, tt in ds:
+                            if isinstance(v, ast.AugAssign):
+                                where.append(_norm(v))
+                                v = v.value
+                            else:
+                                where.append(f"{tt or nm}:={_norm(v)}")
+                            if depth < 8:
+                                where += where_of(v, before, seen, depth + 1)
+                    return where
+
+                def allocated_here(a, before):
+                    """the argument is an allocation, or a name (or `.data` of a name) one of
+                    whose definitions is an allocation"""
+                    if _is_alloc(a):
+                        return True
+                    if isinstance(a, ast.Attribute) and a.attr == "data" and isinstance(a.value, ast.Name):
+                        a = a.value
+                    if isinstance(a, ast.Name):
+                        return any(name == a.id and ln < before and not isinstance(v, ast.AugAssign) and _is_alloc(v)
+                                   for ln, name, v, _t in assigns)
+                    return False
+
+                calls = []
+                for n in ast.walk(fn):
+                    if id(n) in inner or not isinstance(n, ast.Call):
+                        continue
+                    wr = None
+                    if isinstance(n.func, ast.Attribute) and isinstance(n.func.value, ast.Name) \
+                            and n.func.value.id.startswith("c_hydrodiy_"):
+                        wr = n.func.attr
+                    elif isinstance(n.func, ast.Name) and n.func.id in alias:
+                        wr = alias[n.func.id]
+                    if wr is None:
+                        continue
+                    if n.keywords or any(isinstance(a, ast.Starred) for a in n.args):
+                        raise BrokenTie(f"{f.name}:{qn}: call of {wr} with keyword / starred arguments")
+                    args = []
+                    for a in n.args:
+                        if not allocated_here(a, n.lineno):
+                            continue
+                        where = where_of(a, n.lineno, set())
+                        uniq = []
+                        for w in where:
+                            if w not in uniq:
+                                uniq.append(w)
+                        args.append((_norm(a), " ; ".join(uniq)))
+                    calls.append((n.lineno, n.col_offset, wr, args))
+                for _ln, _c, wr, args in sorted(calls, key=lambda c: c[:2]):
+                    out.append((pkg, qn, wr, args))
+    if not out:
+        raise BrokenTie("no Python call site of a compiled wrapper found")
+    return out
+
+
+def _coq_str(s):
+    return '"' + s.replace('"', '""') + '"'
+
+
 def render(repo):
     nmax = c_define(repo, H_AR, "ARMODEL_NPARAMSMAX")
     if not re.fullmatch(r"\d+", nmax):
@@ -188,5 +379,19 @@ def render(repo):
           "  | Some e => snd e | None => [] end.",
           "Definition pyx_has (pkg name : string) (rels : list string) : bool :=",
           "  forallb (fun r => existsb (String.eqb r) (pyx_asserts pkg name)) rels.",
+          "",
+          "(* buffers allocated by the Python call sites of the compiled wrappers:",
+          "   (package, function, wrapper, [(argument, allocation contract)]), in source order *)",
+          "Definition PY_KERNEL_CALLS : list (string * string * string * list (string * string)) := ["]
+    items = []
+    for pkg, qn, wr, args in py_alloc_contracts(repo):
+        al = "; ".join(f"({_coq_str(a)}, {_coq_str(c)})" for a, c in args)
+        items.append(f"  ({_coq_str(pkg)}, {_coq_str(qn)}, {_coq_str(wr)},\n    [{al}])")
+    L.append(";\n".join(items))
+    L += ["].", "",
+          "Definition py_call_sites : list (string * string * string) := map (fun e => fst e) PY_KERNEL_CALLS.",
+          "Definition py_allocs (pkg fn wrapper : string) : list (list (string * string)) :=",
+          "  map (fun e => snd e) (filter (fun e => match fst e with (p, f, w) =>",
+          "    String.eqb p pkg && String.eqb f fn && String.eqb w wrapper end) PY_KERNEL_CALLS).",
           ""]
     return "\n".join(L)
